@@ -556,6 +556,17 @@ impl Property for C06 {
             let lens: Vec<usize> = shares.iter().map(|s| s.y.len()).collect();
             let unequal = lens.iter().any(|l| *l != lens[0]);
             let res = sharks.recover(&shares);
+            // recover takes any iterable of shares: what it answers must not depend on HOW the same shares are
+            // handed over (a slice, or a lazy adaptor whose size_hint says little)
+            let lazy = match ctx.ch.draw(4) {
+                0 => sharks.recover(shares.iter().filter(|_| true)),
+                1 => sharks.recover(shares.iter().skip_while(|_| false)),
+                2 => sharks.recover(shares.chunks(2).flatten()),
+                _ => sharks.recover(shares.iter().chain(std::iter::empty())),
+            };
+            if lazy != res {
+                return Err(Violation::new("c06.recover", "iterator_dependent", format!("recover answers {} for a slice of {} shares ({} distinct x, t={}) and {} for the same shares behind a lazy iterator", if res.is_ok() { "Ok" } else { "Err" }, total, distinct, t, if lazy.is_ok() { "Ok" } else { "Err" })));
+            }
             ev!(ctx, "  selection of {} shares, {} distinct x, unequal lengths={} -> {}", total, distinct, unequal, if res.is_ok() { "Ok" } else { "Err" });
             if unequal || distinct < t || shares.is_empty() {
                 if res.is_ok() {
